@@ -19,7 +19,9 @@ C10WorldsFull == {[fs0 |-> a, force |-> b, fault |-> c, missing |-> m] :
 \* Frame over the module files: an untidy-but-resolvable module, output paths absent or occupied, with and without force
 C10UntidyWorlds == {[fs0 |-> a, force |-> b, fault |-> InputFault("untidy-module", "pkg", p, "among", ft), missing |-> FALSE] :
                       a \in [FileSet -> {"absent", "user"}], b \in {NoForce, AllForce}, p \in {"first", "last"}, ft \in UntidyFeatures}
-C10WorldsQuick == {x \in C10WorldsFull : x.missing => x.fault = NoFault} \cup C10UntidyWorlds
+C10WorldsQuick == {x \in C10WorldsFull : x.missing => \/ x.fault = NoFault
+                                                         \/ (x.fault.kind = "stage" /\ x.fault.at \in {"format", "write"})}
+                  \cup C10UntidyWorlds
 \* quick model check: "gen" and "user" content are the same thing to the model (the difference only exists for the
 \* real code, and the case export keeps both)
 C10WorldsMCQuick == {x \in C10WorldsQuick : \A f \in FileSet : x.fs0[f] # "gen"}
